@@ -12,6 +12,7 @@ import (
 	"go/token"
 	"go/types"
 	"sort"
+	"strconv"
 	"strings"
 
 	"gvc/internal/contract"
@@ -571,6 +572,7 @@ func (b *Builder) Build(entryKey string, con *contract.Func, p *geval.Path, genA
 		body.WriteString("\n")
 	}
 	emitted := body.String()
+	in.registerNamedByParam(con, genArgs)
 	in.Mode = "decls"
 	if m := con.Attr("emits"); m != "" {
 		in.Mode = strings.Fields(m)[0]
@@ -623,6 +625,63 @@ func (b *Builder) Build(entryKey string, con *contract.Func, p *geval.Path, genA
 	conf := types.Config{Importer: b.imp, Error: func(err error) { in.TypeErrs = append(in.TypeErrs, cleanTypeErr(err.Error())) }}
 	in.Pkg, _ = conf.Check(Mark+"p", in.Fset, []*ast.File{f}, in.Info)
 	return in
+}
+
+// registerNamedByParam: o-name-param names the generator function's parameter
+// that carries the name of the function it emits (Generate passes
+// g.GetFuncName(typs...) down): together with the serves attribute this makes
+// the emitted function the helper of (plugin, types), as if the path itself had
+// asked for the name.
+func (in *Instance) registerNamedByParam(con *contract.Func, genArgs map[string]geval.Value) {
+	np := strings.TrimSpace(con.Attr("o-name-param"))
+	if np == "" || len(con.Attrs["serves"]) == 0 {
+		return
+	}
+	tm, ok := genArgs[np].(*geval.Tmpl)
+	if !ok {
+		return
+	}
+	name := in.renderTmpl(tm, nil)
+	ws := strings.Fields(con.Attrs["serves"][0])
+	if len(ws) == 0 {
+		return
+	}
+	h := &geval.Hole{ID: -1, Kind: "funcname", Class: "Ident", Plugin: ws[0]}
+	for _, w := range ws[1:] {
+		kv := strings.SplitN(w, "=", 2)
+		if len(kv) != 2 {
+			continue
+		}
+		switch {
+		case kv[0] == "len":
+			n, _ := strconv.Atoi(kv[1])
+			for len(h.Typs) < n {
+				h.Typs = append(h.Typs, nil)
+			}
+		case kv[1] == "typs":
+			if sv, ok := genArgs[kv[0]].(*geval.SliceVal); ok {
+				h.Typs = nil
+				for _, el := range sv.Elems {
+					t, _ := el.(*geval.SymType)
+					h.Typs = append(h.Typs, t)
+				}
+			}
+		case strings.HasPrefix(kv[1], "typs[") && strings.HasSuffix(kv[1], "]"):
+			i, err := strconv.Atoi(kv[1][5 : len(kv[1])-1])
+			if t, ok := genArgs[kv[0]].(*geval.SymType); ok && err == nil && i >= 0 {
+				for len(h.Typs) <= i {
+					h.Typs = append(h.Typs, nil)
+				}
+				h.Typs[i] = t
+			}
+		}
+	}
+	for _, t := range h.Typs {
+		if t == nil {
+			return
+		}
+	}
+	in.Helpers[name] = h
 }
 
 func cleanTypeErr(s string) string {
